@@ -184,6 +184,25 @@ def _boundary_range(F, b, op, depth=0, seen=None):
     return True
 
 
+def _sub_ok(B, bi, a, c):
+    """a - c cannot underflow: a dominating comparison gives c <= a (or a constant bound does)"""
+    ka, kc = B.val_key(a), B.val_key(c)
+    if kc[0] == "int" and kc[1] == 0:
+        return "minus 0"
+    for tgt, x, strict, y in B.edge_facts():
+        if not B._holds_at(tgt, bi):
+            continue
+        if y == ka and x == kc:
+            return "dominating comparison: subtrahend <= minuend"
+        if y == ka and x[0] == "int" and kc[0] == "int" and (x[1] >= kc[1] or (strict and x[1] + 1 >= kc[1])):
+            return "minuend compared with a constant >= the subtrahend"
+    if ka[0] == "len" and kc[0] == "int" and kc[1] == 1:
+        for tgt, x, strict, y in B.edge_facts():
+            if x == ("int", 0) and strict and y == ka and B._holds_at(tgt, bi):
+                return "len - 1 after a non-empty test"
+    return None
+
+
 def scope(F):
     entries = ["emmylua_ls::handlers::" + e for e in ENTRY]
     missing = [e for e in entries if e not in F.bodies]
@@ -239,6 +258,45 @@ def run_r25c(chk, F):
                               "undischarged range-precondition site (%s) reachable from %s: neither an ordering/char-boundary guard is "
                               "recognised nor is the site in the audited table" % (k, chain[0].split("::")[-1]),
                               b.loc(c["l"]), witness={"call_chain": chain[:12], "kind": k, "callee": name(c)})
+    # unsigned integer subtractions in the handlers themselves (u32 / usize offsets and indices: an underflow panics in debug builds and
+    # wraps to a huge offset in release builds, where rowan then asserts)
+    import bounds
+    nsub = 0
+    for bid in sorted(reach):
+        b = F.bodies[bid]
+        if b.crate != "emmylua_ls":
+            continue
+        B = None
+        k = 0
+        for bi, blk in enumerate(b.blocks):
+            if blk[0]:
+                continue
+            for st in blk[1]:
+                if not (st[0] == "a" and st[2][0] == "bin" and st[2][1] in ("Sub", "SubWithOverflow")):
+                    continue
+                t = b.local_ty_str(st[1][0]) if len(st[1]) == 1 else ""
+                if not (t in ("usize", "u32", "u64") or t.startswith(("(usize", "(u32", "(u64"))):
+                    continue
+                k += 1
+                nsub += 1
+                n += 1
+                key = "C25|%s|uint-sub#%d" % (bid, k)
+                if B is None:
+                    B = bounds.Bounds(F, b)
+                why = _sub_ok(B, bi, st[2][2], st[2][3])
+                if why:
+                    rec += 1
+                    chk.ok(rule, key, {"rule": rule, "site": b.loc(st[3] if len(st) > 3 else None), "kind": "uint-sub", "verdict": "guard recognised", "reason": why})
+                elif key in table:
+                    aud += 1
+                    chk.ok(rule, key, {"rule": rule, "site": b.loc(st[3] if len(st) > 3 else None), "kind": "uint-sub", "verdict": "audited", "reason": table[key]})
+                else:
+                    chain = cg.path(entries, bid) or [bid]
+                    chk.violation(rule, key, "unsigned subtraction without a recognised guard (minuend >= subtrahend) or an audited entry, reachable from %s: "
+                                             "for some document/position it underflows -- a panic in debug builds, a wrapped offset that trips rowan's "
+                                             "assertions in release builds" % chain[0].split("::")[-1], b.loc(st[3] if len(st) > 3 else None),
+                                  witness={"call_chain": chain[:12], "kind": "uint-sub"})
+    chk.floor("unsigned subtractions in position-handler code", nsub, 8)
     chk.unit("functions reachable from position-taking handlers (ls + formatter)", len(reach))
     chk.unit("range-precondition sites", n)
     chk.unit("range-precondition sites discharged by recognised guards", rec)
